@@ -149,6 +149,24 @@ def core_of(ctx, api_name, marker):
             if site and len(site[0].callees) == 1 and site[0].callees[0].cls is None:
                 f = site[0].callees[0]
                 continue
+        # a dispatching wrapper: nothing but if / return statements, every return a call of a package function; the
+        # implementation is the callee that all the others lead to (e.g. a memoised variant that calls the plain one)
+        stmts = [n for st in body for n in ast.walk(st) if isinstance(n, ast.stmt)]
+        rets = [n for n in stmts if isinstance(n, ast.Return)]
+        if stmts and all(isinstance(n, (ast.If, ast.Return)) for n in stmts) and rets and all(isinstance(r.value, ast.Call) for r in rets):
+            cands = []
+            for r in rets:
+                site = [s for s in ctx.cg.sites(f) if s.node is r.value]
+                if not site or len(site[0].callees) != 1 or site[0].callees[0].cls is not None:
+                    cands = None
+                    break
+                if site[0].callees[0] not in cands:
+                    cands.append(site[0].callees[0])
+            if cands:
+                common = [g for g in cands if all(h is g or g.qual in ctx.cg.region(h) for h in cands)]
+                if len(common) == 1:
+                    f = common[0]
+                    continue
         break
     if not any(ctx.db.funcs[q].name == marker for q in ctx.cg.region(f)):
         raise AnalysisError("implementation of %s does not reach %s: anchor lost" % (api_name, marker))
